@@ -64,6 +64,11 @@ fn ref_copula(k: Kind) -> &'static str {
 }
 pub const REF_DERIVED_COPULAS: [&str; 4] = ["{--", "--]", "{-]", "<\\>"];
 
+thread_local! {
+    /// while set, `ref_term` sorts the members of unordered compounds in the tree it returns
+    static SORT_REF: std::cell::Cell<bool> = const { std::cell::Cell::new(false) };
+}
+
 /// reference rendering (no spaces at all) + the lexical tree the published lexicon implies.
 /// Unordered components are taken in the order `order` gives (the formatter's own order is read
 /// back from the library's output, see `ref_term`).
@@ -108,6 +113,9 @@ fn ref_term(t: &TD, real: &narsese::enum_narsese::Term, out: &mut String) -> Str
                 parts.push(ref_term(d, rk, out));
             }
             out.push_str(r);
+            if SORT_REF.with(|c| c.get()) {
+                parts.sort();
+            }
             format!("S({:?},{:?};{})", l, r, parts.join(","))
         }
         _ if t.k.cat() == Cat::Compound => {
@@ -129,6 +137,9 @@ fn ref_term(t: &TD, real: &narsese::enum_narsese::Term, out: &mut String) -> Str
                 }
             }
             out.push(')');
+            if SORT_REF.with(|c| c.get()) && UNORDERED_CONNECTERS.contains(&ref_connecter(t.k)) {
+                parts.sort();
+            }
             format!("C({:?};{})", ref_connecter(t.k), parts.join(","))
         }
         _ => {
@@ -193,9 +204,11 @@ fn reference(nd: &ND, real: &narsese::enum_narsese::Narsese) -> (String, String)
     }
 }
 
+const UNORDERED_CONNECTERS: [&str; 5] = ["&", "|", "&&", "||", "&|"];
+
 // ---------------- PEG tree -> lexical structural rendering ----------------
 
-fn peg_term(n: &Node, input: &[char]) -> Result<String, String> {
+fn peg_term(n: &Node, input: &[char], sort: bool) -> Result<String, String> {
     // n.rule == "term"
     let inner = n.kids.first().ok_or("term without a child")?;
     match inner.rule.as_str() {
@@ -214,11 +227,20 @@ fn peg_term(n: &Node, input: &[char]) -> Result<String, String> {
             }
         }
         "compound" => {
-            let terms: Result<Vec<String>, String> = inner.kids_of("term").map(|k| peg_term(k, input)).collect();
-            let terms = terms?;
+            let terms: Result<Vec<String>, String> = inner.kids_of("term").map(|k| peg_term(k, input, sort)).collect();
+            let mut terms = terms?;
             match inner.kid("connecter") {
-                Some(c) => Ok(format!("C({:?};{})", c.text(input), terms.join(","))),
+                Some(c) => {
+                    let ct = c.text(input);
+                    if sort && UNORDERED_CONNECTERS.contains(&ct.as_str()) {
+                        terms.sort();
+                    }
+                    Ok(format!("C({:?};{})", ct, terms.join(",")))
+                }
                 None => {
+                    if sort {
+                        terms.sort();
+                    }
                     let text = inner.text(input);
                     let l: String = text.chars().take(1).collect();
                     let r: String = text.chars().last().map(|c| c.to_string()).unwrap_or_default();
@@ -232,14 +254,14 @@ fn peg_term(n: &Node, input: &[char]) -> Result<String, String> {
                 return Err("statement without two terms".into());
             }
             let c = inner.kid("copula").ok_or("statement without copula")?;
-            Ok(format!("T({:?};{},{})", c.text(input), peg_term(ts[0], input)?, peg_term(ts[1], input)?))
+            Ok(format!("T({:?};{},{})", c.text(input), peg_term(ts[0], input, sort)?, peg_term(ts[1], input, sort)?))
         }
         other => Err(format!("unexpected rule {} under term", other)),
     }
 }
 
-fn peg_sentence(n: &Node, input: &[char]) -> Result<String, String> {
-    let term = peg_term(n.kid("term").ok_or("sentence without term")?, input)?;
+fn peg_sentence(n: &Node, input: &[char], sort: bool) -> Result<String, String> {
+    let term = peg_term(n.kid("term").ok_or("sentence without term")?, input, sort)?;
     let p = n.kid("punctuation").ok_or("sentence without punctuation")?.text(input);
     let stamp = n.kid("stamp").map(|s| s.text(input).chars().filter(|c| !c.is_whitespace()).collect::<String>()).unwrap_or_default();
     let truth: Vec<String> = n.kid("truth").map(|t| t.kids_of("truth_budget_term").map(|k| k.text(input)).collect()).unwrap_or_default();
@@ -247,7 +269,8 @@ fn peg_sentence(n: &Node, input: &[char]) -> Result<String, String> {
 }
 
 /// (kind, structural rendering) of the PEG parse; Err when the grammar does not accept all of `s`
-pub fn peg_parse(g: &Grammar, s: &str) -> Result<(String, String), String> {
+/// (`sort`: the members of sets and of the unordered connecters `&`, `|`, `&&`, `||`, `&|` are sorted)
+pub fn peg_parse(g: &Grammar, s: &str, sort: bool) -> Result<(String, String), String> {
     let input: Vec<char> = s.chars().collect();
     let (end, nodes) = g.run("narsese", &input).ok_or_else(|| "the published grammar rejects the string".to_string())?;
     // trailing whitespace is insignificant
@@ -261,12 +284,12 @@ pub fn peg_parse(g: &Grammar, s: &str) -> Result<(String, String), String> {
     let top = nodes.first().ok_or("no parse tree")?;
     let inner = top.kids.first().ok_or("narsese without a child")?;
     match inner.rule.as_str() {
-        "term" => Ok(("term".into(), format!("Term({})", peg_term(inner, &input)?))),
-        "sentence" => Ok(("sentence".into(), peg_sentence(inner, &input)?)),
+        "term" => Ok(("term".into(), format!("Term({})", peg_term(inner, &input, sort)?))),
+        "sentence" => Ok(("sentence".into(), peg_sentence(inner, &input, sort)?)),
         "task" => {
             let b = inner.kid("budget").ok_or("task without budget")?;
             let nums: Vec<String> = b.kid("budget_content").map(|c| c.kids_of("truth_budget_term").map(|k| k.text(&input)).collect()).unwrap_or_default();
-            let sen = peg_sentence(inner.kid("sentence").ok_or("task without sentence")?, &input)?;
+            let sen = peg_sentence(inner.kid("sentence").ok_or("task without sentence")?, &input, sort)?;
             Ok(("task".into(), format!("Task({:?}|{})", nums, sen)))
         }
         other => Err(format!("unexpected top rule {}", other)),
@@ -282,7 +305,14 @@ fn lex_parse_tree(s: &str) -> Result<String, String> {
 
 /// all checks on the string produced for a value of kind `kind`; `ref_tree` = independent expectation
 fn string_failure(g: &Grammar, s: &str, kind: &str, expect_tree: Option<&str>) -> Option<String> {
-    let (pk, ptree) = match peg_parse(g, s) {
+    string_failure2(g, s, kind, expect_tree, None)
+}
+
+/// `expect_sorted`: the expectation with the members of unordered compounds sorted - used when the
+/// tree differs from `expect_tree` (which lists them in the order the value iterates them): the order
+/// in which a formatter writes the members of an unordered compound is its own choice
+fn string_failure2(g: &Grammar, s: &str, kind: &str, expect_tree: Option<&str>, expect_sorted: Option<&str>) -> Option<String> {
+    let (pk, ptree) = match peg_parse(g, s, false) {
         Ok(x) => x,
         Err(e) => return Some(format!("{} for {:?}", e, s)),
     };
@@ -298,6 +328,13 @@ fn string_failure(g: &Grammar, s: &str, kind: &str, expect_tree: Option<&str>) -
     }
     if let Some(want) = expect_tree {
         if ptree != want && norm_nums(&ptree) != norm_nums(want) {
+            if let Some(ws) = expect_sorted {
+                if let Ok((_, sorted)) = peg_parse(g, s, true) {
+                    if sorted == ws || norm_nums(&sorted) == norm_nums(ws) {
+                        return None;
+                    }
+                }
+            }
             return Some(format!("tree of {:?} is {} but the lexicon implies {}", s, ptree, want));
         }
     }
@@ -364,11 +401,23 @@ fn enum_failure(g: &Grammar, nd: &ND) -> Option<String> {
         Err(p) => return Some(format!("formatting panicked: {}", p)),
     };
     let (ref_text, ref_tree) = reference(nd, &real);
+    // the same expectation with the members of unordered compounds sorted (the reference text and tree
+    // list them in the order the value iterates them, which a formatter need not follow)
+    let ref_sorted = {
+        SORT_REF.with(|c| c.set(true));
+        let r = reference(nd, &real).1;
+        SORT_REF.with(|c| c.set(false));
+        r
+    };
     let stripped: String = s.chars().filter(|c| *c != ' ').collect();
     if !same_up_to_float_spelling(&stripped, &ref_text) {
-        return Some(format!("the ASCII formatter wrote {:?}; the OpenNARS lexicon gives {:?} (spaces ignored)", s, ref_text));
+        // not the rendering in iteration order: acceptable only as another order of unordered members
+        let reordered = matches!(peg_parse(g, &s, true), Ok((_, t)) if t == ref_sorted || norm_nums(&t) == norm_nums(&ref_sorted));
+        if !reordered {
+            return Some(format!("the ASCII formatter wrote {:?}; the OpenNARS lexicon gives {:?} (spaces and the order of unordered members ignored)", s, ref_text));
+        }
     }
-    if let Some(w) = string_failure(g, &s, nd.kind_name(), Some(&ref_tree)) {
+    if let Some(w) = string_failure2(g, &s, nd.kind_name(), Some(&ref_tree), Some(&ref_sorted)) {
         return Some(w);
     }
     // the other ways to the same formatter (kind-specific method, `format(&value)`, `FormatTo`)
@@ -384,7 +433,7 @@ fn enum_failure(g: &Grammar, nd: &ND) -> Option<String> {
         match o {
             Obs::Ret(t) if t == s => {}
             Obs::Ret(t) => {
-                if let Some(w) = string_failure(g, &t, nd.kind_name(), Some(&ref_tree)) {
+                if let Some(w) = string_failure2(g, &t, nd.kind_name(), Some(&ref_tree), Some(&ref_sorted)) {
                     return Some(format!("through {}: {}", name, w));
                 }
             }
